@@ -194,12 +194,20 @@ func rejoinStringInterpolations(data []byte) []byte {
 }
 
 // collapseBlankLines limits consecutive blank lines to at most max.
+// Blank lines inside block comments are part of the comment text and are kept.
 func collapseBlankLines(data []byte, max int) []byte {
 	lines := bytes.Split(data, []byte("\n"))
 	result := make([][]byte, 0, len(lines))
 	consecutive := 0
+	// blockCommentDepth is the nesting depth of block comments at the start of the line
+	blockCommentDepth := 0
 	for _, line := range lines {
-		if len(bytes.TrimSpace(line)) == 0 {
+		insideBlockComment := blockCommentDepth > 0
+		blockCommentDepth = blockCommentDepthAfterLine(line, blockCommentDepth)
+
+		if insideBlockComment {
+			consecutive = 0
+		} else if len(bytes.TrimSpace(line)) == 0 {
 			consecutive++
 			if consecutive > max {
 				continue
@@ -210,6 +218,48 @@ func collapseBlankLines(data []byte, max int) []byte {
 		result = append(result, line)
 	}
 	return bytes.Join(result, []byte("\n"))
+}
+
+// blockCommentDepthAfterLine returns the nesting depth of block comments at the end of the given line,
+// given the nesting depth at the start of the line.
+// Block comment delimiters in string literals and line comments are ignored.
+func blockCommentDepthAfterLine(line []byte, depth int) int {
+	inString := false
+	for i := 0; i < len(line); i++ {
+		b := line[i]
+		hasNext := i+1 < len(line)
+
+		switch {
+		case depth > 0:
+			if b == '/' && hasNext && line[i+1] == '*' {
+				depth++
+				i++
+			} else if b == '*' && hasNext && line[i+1] == '/' {
+				depth--
+				i++
+			}
+
+		case inString:
+			if b == '\\' && hasNext {
+				// Skip the escaped character
+				i++
+			} else if b == '"' {
+				inString = false
+			}
+
+		case b == '"':
+			inString = true
+
+		case b == '/' && hasNext && line[i+1] == '/':
+			// Line comment, ignore the rest of the line
+			return depth
+
+		case b == '/' && hasNext && line[i+1] == '*':
+			depth++
+			i++
+		}
+	}
+	return depth
 }
 
 // stripTrailingLineWhitespace strips indent whitespace from blank lines.
